@@ -22,7 +22,162 @@ fn profile_for(ctx: &Ctx, idx: u64) -> Profile {
     }
 }
 
+// ----- stage product ----------------------------------------------------------------------
+//
+// Every kind of operation that can end a run with a runtime error, or that has an effect other
+// than its value, placed in every kind of position whose value is never used. The program is run
+// with and without the plan; nothing else is assumed about what it does.
+
+/// (name, setup statements, expression). `@` in the expression stands for the probed position.
+fn observable_exprs() -> Vec<(&'static str, &'static str, &'static str)> {
+    vec![
+        // failing arithmetic
+        ("divide-by-zero-literal", "", "1 divide 0"),
+        ("divide-by-zero-point-zero", "", "1 divide 0.0"),
+        ("divide-by-zero-padded", "", "1 divide 00.00"),
+        ("mod-by-zero-literal", "", "7 mod 0"),
+        ("mod-by-zero-point-zero", "", "7 mod 0.0"),
+        ("divide-by-computed-zero", "", "1 divide (2 minus 2)"),
+        ("divide-by-zero-variable", "make zz_z get 0", "5 divide zz_z"),
+        ("divide-by-minus-zero", "", "1 divide minus 0"),
+        // failing indexes
+        ("index-out-of-bounds", "", "[1, 2][7]"),
+        ("index-negative", "", "[1, 2][minus 1]"),
+        ("index-fractional", "", "[1, 2][0.5]"),
+        ("index-of-empty", "make zz_e get []", "zz_e[0]"),
+        ("index-nested-out-of-bounds", "make zz_m get [[1]]", "zz_m[0][3]"),
+        ("index-not-a-number", "make zz_ix get [\"k\"]", "[1, 2][zz_ix[0]]"),
+        ("index-base-not-an-array", "make zz_nb get [5]", "zz_nb[0][0]"),
+        // operators on operands whose type is only known at run time
+        ("minus-on-dynamic-string", "do zz_f(p) start\nreturn p minus 1\nend", "zz_f(\"s\")"),
+        ("times-on-dynamic-bool", "do zz_f(p) start\nreturn p times 2\nend", "zz_f(true)"),
+        ("add-on-dynamic-bool", "do zz_f(p) start\nreturn p add 1\nend", "zz_f(true)"),
+        ("compare-on-dynamic-mixed", "do zz_f(p) start\nreturn p pass 1\nend", "zz_f(\"s\")"),
+        ("equal-on-dynamic-mixed", "do zz_f(p) start\nreturn p na 1\nend", "zz_f(\"s\")"),
+        ("and-on-dynamic-number", "do zz_f(p) start\nreturn p and true\nend", "zz_f(1)"),
+        ("or-on-dynamic-string", "do zz_f(p) start\nreturn false or p\nend", "zz_f(\"s\")"),
+        ("not-on-dynamic-number", "do zz_f(p) start\nreturn not p\nend", "zz_f(1)"),
+        ("negate-dynamic-string", "do zz_f(p) start\nreturn minus p\nend", "zz_f(\"s\")"),
+        ("minus-on-array-element", "make zz_a get [\"s\"]", "zz_a[0] minus 1"),
+        ("minus-on-pop-result", "make zz_a get [\"s\"]", "zz_a.pop() minus 1"),
+        ("method-on-dynamic-number", "do zz_f(p) start\nreturn p.len()\nend", "zz_f(5)"),
+        ("method-on-dynamic-null", "do zz_f(p) start\nreturn p.trim()\nend", "zz_f(null)"),
+        ("index-on-dynamic-number", "do zz_f(p) start\nreturn p[0]\nend", "zz_f(5)"),
+        ("condition-on-dynamic-number", "do zz_f(p) start\nif to say (p) start\nreturn 1\nend\nreturn 2\nend", "zz_f(5)"),
+        ("loop-condition-on-dynamic-string", "do zz_f(p) start\njasi (p) start\nreturn 1\nend\nreturn 2\nend", "zz_f(\"s\")"),
+        ("slice-bound-dynamic-string", "do zz_f(p) start\nreturn \"abc\".slice(p, 2)\nend", "zz_f(\"s\")"),
+        ("join-separator-dynamic-number", "do zz_f(p) start\nreturn [1, 2].join(p)\nend", "zz_f(5)"),
+        ("command-of-dynamic-number", "do zz_f(p) start\nreturn command(p)\nend", "zz_f(5)"),
+        ("call-through-two-functions", "do zz_g(p) start\nreturn p minus 1\nend\ndo zz_f(p) start\nreturn zz_g(p)\nend", "zz_f(\"s\")"),
+        // effects other than the value
+        ("pop", "make zz_a get [1, 2, 3]", "zz_a.pop()"),
+        ("pop-of-nested", "make zz_a get [[1, 2], [3]]", "zz_a[0].pop()"),
+        ("pop-in-callee", "make zz_a get [1, 2, 3]\ndo zz_f() start\nreturn zz_a.pop()\nend", "zz_f()"),
+        ("push-in-callee", "make zz_a get [1]\ndo zz_f() start\nzz_a.push(9)\nreturn 0\nend", "zz_f()"),
+        ("reverse-in-callee", "make zz_a get [1, 2]\ndo zz_f() start\nzz_a.reverse()\nreturn 0\nend", "zz_f()"),
+        ("index-write-in-callee", "make zz_a get [1, 2]\ndo zz_f() start\nzz_a[0] get 9\nreturn 0\nend", "zz_f()"),
+        ("assign-captured-in-callee", "make zz_c get 0\ndo zz_f() start\nzz_c get zz_c add 1\nreturn zz_c\nend", "zz_f()"),
+        ("assign-captured-two-levels", "make zz_c get 0\ndo zz_g() start\nzz_c get zz_c add 1\nreturn 0\nend\ndo zz_f() start\nreturn zz_g()\nend", "zz_f()"),
+        ("assign-captured-behind-flag", "make zz_c get 0\ndo zz_f(fl) start\nif to say (fl) start\nzz_c get 5\nend\nreturn 0\nend", "zz_f(true)"),
+        ("shout-in-callee", "do zz_f() start\nshout(\"effect\")\nreturn 0\nend", "zz_f()"),
+        ("shout-in-recursive-callee", "do zz_f(n) start\nif to say (n small pass 1) start\nreturn 0\nend\nshout(n)\nreturn zz_f(n minus 1)\nend", "zz_f(2)"),
+        ("command-arg-in-callee", "make zz_cm get command(\"/bin/true\")\ndo zz_f() start\nzz_cm.arg(\"x\")\nreturn 0\nend", "zz_f()"),
+    ]
+}
+
+/// (name, template). `S` = the setup statements, `E` = the expression. Every template ends by
+/// printing a marker and whatever state the setups declare, so that a skipped effect shows.
+fn dead_positions() -> Vec<(&'static str, &'static str)> {
+    vec![
+        ("unused-declaration", "S\nmake zz_u get E\nD"),
+        ("declaration-overwritten", "S\nmake zz_u get E\nzz_u get 1\nshout(zz_u)\nD"),
+        ("assignment-overwritten", "S\nmake zz_u get 0\nzz_u get E\nzz_u get 1\nshout(zz_u)\nD"),
+        ("assignment-never-read-again", "S\nmake zz_u get 0\nshout(zz_u)\nzz_u get E\nD"),
+        ("in-array-literal", "S\nmake zz_u get [0, E]\nD"),
+        ("as-argument-of-pure-call", "S\ndo zz_id(x) start\nreturn 0\nend\nmake zz_u get zz_id(E)\nD"),
+        ("as-argument-of-builtin", "S\nmake zz_u get typeof(E)\nD"),
+        ("as-operand", "S\nmake zz_u get 1 add [E].len()\nD"),
+        ("in-function-body", "S\ndo zz_w() start\nmake zz_u get E\nreturn 0\nend\nzz_w()\nD"),
+        ("in-function-called-from-dead-store", "S\ndo zz_w() start\nmake zz_u get E\nreturn 0\nend\nmake zz_v get zz_w()\nD"),
+        ("in-loop-body", "S\nmake zz_i get 0\njasi (zz_i small pass 2) start\nzz_i get zz_i add 1\nmake zz_u get E\nend\nD"),
+        ("in-if-arm", "S\nif to say (true) start\nmake zz_u get E\nend\nD"),
+        ("in-nested-block", "S\nstart\nmake zz_u get E\nend\nD"),
+        ("unused-in-branch-merge", "S\nmake zz_u get 0\nif to say (true) start\nzz_u get E\nend\nif not so start\nzz_u get 2\nend\nD"),
+        ("before-return-in-function", "S\ndo zz_w() start\nmake zz_u get E\nreturn 0\nmake zz_d get 1\nend\nshout(zz_w())\nD"),
+        ("short-circuited-away", "S\nmake zz_u get false and [E].len() pass 0\nD"),
+    ]
+}
+
+const DUMP: &str = "shout(\"after\")";
+
+fn state_dump(setup: &str) -> String {
+    // print every variable the setup declares at top level
+    let mut s = String::from(DUMP);
+    for line in setup.lines() {
+        if let Some(rest) = line.strip_prefix("make ")
+            && let Some(name) = rest.split(' ').next()
+        {
+            s.push_str(&format!("\nshout({name})"));
+        }
+    }
+    s
+}
+
+fn run_product(ctx: &mut Ctx) {
+    let exprs = observable_exprs();
+    let positions = dead_positions();
+    let total = (exprs.len() * positions.len()) as u64;
+    ctx.out.extra.insert("product_size".into(), json!(total));
+    ctx.out.extra.insert("product_operations".into(), json!(exprs.len()));
+    ctx.out.extra.insert("product_positions".into(), json!(positions.len()));
+    let idxs: Vec<u64> = ctx.indices().filter(|i| *i < total).collect();
+    for idx in idxs {
+        ctx.out.begin(idx);
+        ctx.out.evaluations += 1;
+        let (ename, setup, expr) = exprs[idx as usize / positions.len()];
+        let (pname, template) = positions[idx as usize % positions.len()];
+        let src = template.replace('S', setup).replace('E', expr).replace('D', &state_dump(setup)) + "\n";
+        let replay = json!({"engine": "prune", "stage": "product", "src": src, "operation": ename, "position": pname});
+        let run = |plan: bool| util::guarded(|| pipeline::run_source(&src, RunCfg { plan, trace: true, allow_process: false, ..RunCfg::default() }));
+        let (with, without) = match (run(true), run(false)) {
+            (Ok(a), Ok(b)) => (a, b),
+            (Err((msg, loc)), _) | (_, Err((msg, loc))) => {
+                let sig = format!("panic|{}|{}", util::normalise_msg(&msg), util::panic_site(&loc));
+                ctx.out.fail(idx, &sig, json!({"panic": msg, "at": loc, "src": src}), replay);
+                continue;
+            }
+        };
+        if !with.accepted {
+            // e.g. an operand the checker can type statically after all: nothing to compare
+            ctx.out.tag("product.rejected-by-checker");
+            continue;
+        }
+        if with.output != without.output || with.ending != without.ending {
+            let sig = if with.ending == without.ending {
+                format!("product|output-differs|{ename}")
+            } else {
+                format!("product|ending-differs|{ename}|pruned={}|full={}", with.ending, without.ending)
+            };
+            ctx.out.fail(idx, &sig, json!({"position": pname, "pruned": with.output, "full": without.output, "pruned_ending": with.ending, "full_ending": without.ending, "src": src}), replay);
+            continue;
+        }
+        ctx.out.tag(&format!("product.ending.{}", with.ending));
+        let skipped = with.trace.as_ref().map_or(0, |t| t.skipped.len());
+        if skipped > 0 {
+            ctx.out.tag("product.something-skipped");
+        }
+        ctx.out.nontrivial(util::hash64(src.as_bytes()));
+        if idx % 97 == 0 {
+            ctx.out.sample(json!({"operation": ename, "position": pname, "src": src, "ending": with.ending, "output": with.output, "skipped": skipped}));
+        }
+    }
+}
+
 pub fn run(ctx: &mut Ctx) {
+    if ctx.opt("stage") == Some("product") {
+        run_product(ctx);
+        return;
+    }
     for idx in ctx.indices() {
         ctx.out.begin(idx);
         ctx.out.evaluations += 1;
@@ -35,10 +190,16 @@ pub fn run(ctx: &mut Ctx) {
             ctx.out.inconclusive(idx, "generator produced a statically invalid program", json!({"src": src}));
             continue;
         }
+        // The model only filters out programs that may not terminate. A program that leaves the
+        // documented domain (an operator applied to a run-time type it is not defined for: the
+        // interpreter reports Type mismatch there) is still compared with itself.
         let model = interp::run(&prog, 300_000);
-        if !model.ending.comparable() {
+        if matches!(model.ending, interp::Ending::Fuel) {
             ctx.out.discarded += 1;
             continue;
+        }
+        if matches!(model.ending, interp::Ending::Stuck(..)) {
+            ctx.out.tag("outside-the-model-domain");
         }
         let replay = json!({"engine": "prune", "src": src});
         let run = |plan: bool| {
